@@ -267,6 +267,11 @@ func (f *Frame) callContract(i *ssa.Call, g *ssa.Function, fc2 *FuncContract, ke
 	var resT *types.Tuple
 	var modKeys []string
 	if g != nil {
+		for old, k := range c.eng.paramAliases(g) {
+			if k < len(args) {
+				ev.vars[old] = SVal{T: args[k].T, S: args[k].S, GT: g.Params[k].Type()}
+			}
+		}
 		for k, p := range g.Params {
 			ev.vars[p.Name()] = SVal{T: args[k].T, S: args[k].S, GT: p.Type()}
 			if args[k].T == "" && args[k].Fn == nil {
